@@ -1,7 +1,7 @@
 """C04 — messages exactly-once, per-sender FIFO, no lost wake-ups (structural clauses)."""
 from qvlib.extract import CheckError
 from qvlib.facts import op_place
-from qvlib.paths import Flow, agg_sites, consumer_calls, diverging_blocks, err_blocks, explore, path_desc, result_switch_edges
+from qvlib.paths import Flow, agg_sites, consumer_calls, discr_switches, diverging_blocks, err_blocks, explore, path_desc, result_switch_edges
 
 CRATES = None  # whole workspace: who-may-construct / who-may-write rules are workspace-wide
 
@@ -438,12 +438,89 @@ def r5_spawner(ctx):
                           "Action::Spawn issued without parking the spawner", body.loc(bi, si))
 
 
+NARROWING = ("Iterator::filter", "Iterator::take", "Iterator::take_while", "Iterator::skip", "Iterator::skip_while", "Iterator::step_by", "Iterator::nth",
+             "Vec::retain", "Vec::retain_mut", "Vec::truncate", "Vec::pop", "Vec::remove", "Vec::swap_remove", "Vec::drain", "Vec::split_off", "Vec::clear",
+             "Vec::dedup", "Vec::dedup_by", "Vec::dedup_by_key", "Iterator::find", "Iterator::last", "Iterator::next")
+
+
+def await_targets_complete(ctx, R):
+    """every process-kind source of a select is asked about: the `targets` of the Action::Await built by initialize_select are ALL Value::Process
+    sources (a source skipped here is never registered with its worker: a later failure/result of it never reaches this select)."""
+    F = ctx.facts
+    key = "quiver_core::executor::Executor::initialize_select"
+    b = F.body(key)
+    fl = Flow(b, through_named=True)
+    aw = agg_sites(b, "process::Action", "Await")
+    if not aw:
+        raise CheckError("%s: Action::Await is not constructed in initialize_select" % R)
+    bi, si, s = aw[0]
+    d = dict(zip(s["rv"]["fields"], s["rv"]["ops"]))
+    tp = op_place(d.get("targets", {}))
+    if not tp:
+        raise CheckError("%s: Action::Await.targets operand not found" % R)
+    TC = ("Iterator::collect", "Iterator::filter_map", "Iterator::filter", "Iterator::map", "slice::iter", "Deref::deref", "IntoIterator::into_iter", "Iterator::cloned",
+          "Iterator::copied", "Iterator::take", "Iterator::skip", "Iterator::take_while", "Iterator::skip_while", "Iterator::step_by", "Iterator::rev", "Clone::clone")
+    back = fl.backward({tp["l"]}, through_calls=TC)
+    pipeline = [(cb, t) for cb, t in b.calls() if t.get("dest") and t["dest"]["l"] in back]
+    names = [(t.get("callee") or "") for _cb, t in pipeline]
+    narrowing = [n for n in names if any(n.endswith(x) for x in NARROWING)]
+    # in-place narrowing of the collected vector
+    for cb, t in b.calls():
+        c = t.get("callee") or ""
+        if any(c.endswith(x) for x in NARROWING) and t["args"]:
+            ap = op_place(t["args"][0])
+            if ap and "Vec<usize>" in b.local_ty(ap["l"]) and (ap["l"] in back or fl.backward({ap["l"]}) & back) and b.reaches(cb, bi):
+                narrowing.append(c)
+    fm = [(cb, t) for cb, t in pipeline if (t.get("callee") or "").endswith("Iterator::filter_map")]
+    # the projection closure: Some(..) on every path of the Process variant
+    proj_ok = False
+    VALUE = "quiver_core::value::Value"
+    variants = [v["name"] for v in F.adt(VALUE)["variants"]]
+    pidx = variants.index("Process")
+    for ck in F.with_closures(key):
+        if ck == key:
+            continue
+        cb_ = F.body(ck)
+        if "core::option::Option<usize>" not in cb_.local_ty(0):
+            continue
+        somes = [x for x, _si, _s in agg_sites(cb_, "option::Option", "Some")]
+        for blk, st_i, st in cb_.stmts():
+            if st["k"] == "assign" and st["rv"]["k"] == "discr" and (st["rv"].get("adt") or "").endswith("value::Value"):
+                sw = cb_.blocks[blk]["term"]
+                if sw["k"] == "switch":
+                    tgt = dict((v, bb) for v, bb in sw["targets"]).get(pidx, sw["otherwise"])
+                    if somes and explore(cb_, [tgt], avoid=somes, want="return") is None:
+                        proj_ok = True
+    ok = bool(fm) and not narrowing and proj_ok
+    ctx.check(ok, R, key + "|await-targets-complete",
+              "Action::Await.targets = every Value::Process source (iter -> filter_map[Process => Some] -> collect, no narrowing step)",
+              "the targets a select asks its workers about are narrowed (%s%s): a process source that is skipped is never registered, so its later "
+              "result or FAILURE never reaches this select (hang, or the select runs on to another source)" % (
+                  ", ".join(sorted(set(x.split("::")[-1] for x in narrowing))) or "projection changed", "" if proj_ok else "; the Process projection no longer yields Some on every path"),
+              b.loc(bi, si))
+    # a non-empty target list always produces the Await action
+    empt = [(cb, t) for cb, t in b.calls() if (t.get("callee") or "").endswith("Vec::is_empty") and op_place(t["args"][0]) and
+            (fl.backward({op_place(t["args"][0])["l"]}) & back) and b.dominates(cb, bi)]
+    ok2 = False
+    stop = err_blocks(b) | diverging_blocks(b)
+    for cb, t in empt:
+        r = t["dest"]["l"]
+        bad = None
+        for x in b.succ[cb]:
+            bad = bad or explore(b, [(x, {r: 0})], avoid=[bi], stop=stop, want="return")
+        if bad is None:
+            ok2 = True
+    ctx.check(ok2, R, key + "|await-when-non-empty", "a non-empty target list reaches the Action::Await on every non-error path",
+              "initialize_select can return without Action::Await although there are process sources to ask about", b.loc(bi, si))
+
+
 def r6_await_registration(ctx):
     R = "R-C04-6"
     ctx.rule(R, "await protocol: Worker::query_and_await answers 'not finished' (None) for a target only after registering the awaiter "
                 "(awaited.insert + awaiters_for_target entry push) so that check_completed_processes reports the completion later; "
                 "check_completed_processes sends ProcessResults for every registered awaiter and reports Err results as well as Ok")
     F = ctx.facts
+    await_targets_complete(ctx, R)
     q = F.body("quiver_environment::worker::Worker::query_and_await")
     fl = Flow(q)
     # the answer map: the operand of the `results` field of the Event::ProcessResults this function sends
@@ -527,8 +604,77 @@ def r6_await_registration(ctx):
               "update_await_results can return without waking the awaiter: %s" % path_desc(u, bad), u.loc(0))
 
 
+def r7_actions_forwarded(ctx, R="R-C04-7"):
+    ctx.rule(R, "the environment is the only router: every arm of Worker::handle_action sends the arm's own Event on EVERY non-error path (no "
+                "worker-local short cut around Environment::handle_deliver / handle_spawn / handle_await — those are where ownership moves, awaits "
+                "are registered and cleanup is triggered); Worker::deliver_message is called only by the Command::DeliverMessage handler; "
+                "check_completed_processes reports to every registered awaiter (no skipped iteration)")
+    F = ctx.facts
+    ha = F.body("quiver_environment::worker::Worker::handle_action")
+    fl = Flow(ha)
+    ACTION = "quiver_core::process::Action"
+    variants = F.variants(ACTION)
+    ap = ha.param_by_type(lambda ty: ty.startswith("quiver_core::process::Action"), what="action parameter")
+    sws = discr_switches(ha, ap)
+    if not sws:
+        raise CheckError("%s: the match over the action was not found in handle_action" % R)
+    sw = sws[0]
+    stop = err_blocks(ha) | diverging_blocks(ha)
+    ev_sends = {}
+    for bi, si, st in agg_sites(ha, "messages::Event"):
+        for cb, ct, _ai in consumer_calls(ha, fl, st["p"]["l"]):
+            if (ct.get("callee") or "").endswith("::send"):
+                ev_sends.setdefault(st["rv"]["variant"], []).append(cb)
+    n = 0
+    for idx, v in enumerate(variants):
+        entry = sw[1].get(idx, sw[2])
+        # the Event(s) constructed in this arm: those whose send block is reachable from the arm entry
+        mine = {ev: [b for b in bs if ha.reaches(entry, b)] for ev, bs in ev_sends.items()}
+        mine = {ev: bs for ev, bs in mine.items() if bs}
+        site = "%s|Action::%s" % (ha.key, v)
+        if not mine:
+            ctx.violated(R, site, "the Action::%s arm sends no Event at all: the action is swallowed by the worker" % v, ha.loc(entry))
+            continue
+        n += 1
+        allb = [b for bs in mine.values() for b in bs]
+        bad = explore(ha, [entry], avoid=allb, stop=stop, want="return")
+        ctx.check(bad is None, R, site, "every non-error path of the arm sends Event::%s" % "/".join(sorted(mine)),
+                  "a path through the Action::%s arm returns normally WITHOUT sending Event::%s (worker-local short cut: the environment never sees "
+                  "the action, so ownership transfer / await registration / routing for it does not happen): %s" % (v, "/".join(sorted(mine)), path_desc(ha, bad)),
+                  ha.loc(entry))
+    ctx.floor(R, "Action arms forwarding an Event", n, 4)
+    dm = "quiver_environment::worker::Worker::deliver_message"
+    callers = sorted({k.split("::{closure")[0] for k, _b in F.callers_of(dm)})
+    ctx.check(callers == ["quiver_environment::worker::Worker::handle_command"], R, "callers(deliver_message)",
+              "Worker::deliver_message is called only from the Command handler (messages reach a mailbox only after the environment routed them)",
+              "Worker::deliver_message has other callers: %s" % callers)
+    # check_completed_processes: no awaiter of the removed list is skipped
+    c = F.body("quiver_environment::worker::Worker::check_completed_processes")
+    flc = Flow(c)
+    sends = []
+    for bi, si, st in agg_sites(c, "messages::Event", "ProcessResults"):
+        sends += [cb for cb, ct, _ in consumer_calls(c, flc, st["p"]["l"]) if (ct.get("callee") or "").endswith("::send")]
+    stopc = err_blocks(c) | diverging_blocks(c)
+    inner = None
+    for bi, t in c.calls():
+        if (t.get("callee") or "").endswith("Iterator::next") and sends and all(c.reaches(s2, bi) and c.dominates(bi, s2) for s2 in sends):
+            # innermost loop containing the send: the header dominated by every other candidate
+            if inner is None or c.dominates(inner[0], bi):
+                inner = (bi, 0, t)
+    hb, _sz, ht = inner
+    some_edges = []
+    for swb, m, other in discr_switches(c, ht["dest"]["l"]):
+        some_edges.append(m.get(1, other))
+    bad = None
+    for e in some_edges:
+        bad = bad or explore(c, [e], avoid=sends, stop=stopc, want="target", targets=[hb])
+    ctx.check(bool(some_edges) and bad is None, R, c.key + "|every-awaiter", "every iteration of the awaiter loop sends ProcessResults (no awaiter is skipped)",
+              "an iteration of the awaiter loop can skip the ProcessResults send: that awaiter is never told, and the environment never learns of the "
+              "completion through it (cleanup_process_resources is triggered by this event): %s" % path_desc(c, bad), c.loc(hb))
+
+
 def run(ctx):
-    ctx.run_rules([r1_unpark_enqueue, r2_park_dequeue, r3_pipeline, r4_order, r5_spawner, r6_await_registration])
+    ctx.run_rules([r1_unpark_enqueue, r2_park_dequeue, r3_pipeline, r4_order, r5_spawner, r6_await_registration, r7_actions_forwarded])
     return (
         "Decides structural clauses only: (1) every parked-set removal is paired with a run-queue push of the same id on every non-error "
         "path and only when something was parked; (2) only mark_* park, each dequeues, step re-queues unless parked, effect requests park first; "
